@@ -19,17 +19,146 @@ import (
 // comment, with spaces and tabs removed (found by a plain byte scan, no
 // lexer); that is what the "untouched items keep their tokens and comments"
 // clause compares.
+//
+// The comments of the source (TokenComment tokens of the hclsyntax scanner) are
+// distributed over the tree as a ledger, see attach.
 func fromSource(src []byte) (*refwriter.Body, hcl.Diagnostics) {
 	f, diags := hclsyntax.ParseConfig(src, "out.hcl", hcl.InitialPos)
 	if diags.HasErrors() {
 		return nil, diags
 	}
 	sr := &srcReader{src: src}
-	return sr.body(f.Body.(*hclsyntax.Body)), nil
+	toks, _ := hclsyntax.LexConfig(src, "out.hcl", hcl.InitialPos)
+	for _, t := range toks {
+		if t.Type != hclsyntax.TokenComment {
+			continue
+		}
+		c := srcComment{start: t.Range.Start.Byte, end: t.Range.End.Byte}
+		// `#` and `//` comment tokens include their line terminator
+		for c.end > c.start && (src[c.end-1] == '\n' || src[c.end-1] == '\r') {
+			c.end--
+		}
+		sr.comments = append(sr.comments, c)
+	}
+	return sr.body(f.Body.(*hclsyntax.Body), 0, len(src)), nil
+}
+
+type srcComment struct {
+	start, end int // byte range without the line terminator
 }
 
 type srcReader struct {
-	src []byte
+	src      []byte
+	comments []srcComment // in source order
+}
+
+// line is the 0-based line of a byte offset.
+func (r *srcReader) line(off int) int {
+	n := 0
+	for _, c := range r.src[:off] {
+		if c == '\n' {
+			n++
+		}
+	}
+	return n
+}
+
+// srcEnt is one item of a body with its byte range [start,end) (attribute:
+// name .. end of expression; block: type .. closing brace) and, for a block,
+// the range between its braces.
+type srcEnt struct {
+	item           *refwriter.Item
+	start, end     int
+	inStart, inEnd int
+	startLn, endLn int
+}
+
+// attach distributes the comments that lie in [lo,hi) but not between the
+// braces of a nested block over the items of one body:
+//
+//	inner  the comment lies inside the item's range
+//	line   it starts behind the item on the line where the item ends
+//	lead   it ends in front of the item on the line where the item starts, or
+//	       it is on lines of its own and the line below its last line is the
+//	       first line of the item or of another lead comment of the item
+//	       ("whole lines containing only comment tokens with no blank lines
+//	       between", hclwrite/parser.go)
+//	free   anything else, in particular comment lines that follow an item's
+//	       line comment: a line comment is a comment "on the same line where
+//	       its significant tokens ended", so the line below is not part of it
+//
+// Where a comment could be counted to an item or not (a comment above an
+// item), it is counted to the item: the ledger then demands less.
+func (r *srcReader) attach(b *refwriter.Body, ents []srcEnt, lo, hi int) {
+	name := func(e *srcEnt) string {
+		if e.item.Block {
+			return "block " + e.item.Type
+		}
+		return "attribute " + e.item.Name
+	}
+	type pending struct {
+		c      srcComment
+		ln, to int // first and last line
+	}
+	var own []pending
+	put := func(e *srcEnt, c srcComment, kind string) {
+		rc := refwriter.Comment{Seq: c.start, Text: stripSpaces(r.src[c.start:c.end]), Kind: kind}
+		if e == nil {
+			b.Free = append(b.Free, rc)
+			return
+		}
+		rc.Of = name(e)
+		e.item.Comments = append(e.item.Comments, rc)
+	}
+next:
+	for _, c := range r.comments {
+		if c.start < lo || c.start >= hi {
+			continue
+		}
+		for i := range ents {
+			if e := &ents[i]; e.item.Block && c.start >= e.inStart && c.start < e.inEnd {
+				continue next // belongs to the nested body
+			}
+		}
+		for i := range ents {
+			if e := &ents[i]; c.start >= e.start && c.start < e.end {
+				put(e, c, "inner")
+				continue next
+			}
+		}
+		ln, to := r.line(c.start), r.line(c.end)
+		for i := len(ents) - 1; i >= 0; i-- {
+			if e := &ents[i]; c.start >= e.end && ln == e.endLn {
+				put(e, c, "line")
+				continue next
+			}
+		}
+		for i := range ents {
+			if e := &ents[i]; c.end <= e.start && to == e.startLn {
+				put(e, c, "lead")
+				continue next
+			}
+		}
+		own = append(own, pending{c, ln, to})
+	}
+	below := map[int]*srcEnt{} // line -> item whose lead comment run / first line is on that line
+	for i := range ents {
+		below[ents[i].startLn] = &ents[i]
+	}
+	for i := len(own) - 1; i >= 0; i-- {
+		p := own[i]
+		if e, ok := below[p.to+1]; ok {
+			put(e, p.c, "lead")
+			below[p.ln] = e
+			continue
+		}
+		put(nil, p.c, "free")
+	}
+	sort.SliceStable(b.Free, func(i, j int) bool { return b.Free[i].Seq < b.Free[j].Seq })
+	for i := range ents {
+		cs := ents[i].item.Comments
+		sort.SliceStable(cs, func(i, j int) bool { return cs[i].Seq < cs[j].Seq })
+	}
 }
 
 func stripSpaces(b []byte) string {
@@ -97,7 +226,7 @@ func (r *srcReader) extent(start, end int) (lo, hi int, terminated bool) {
 }
 
 // body converts one body.
-func (r *srcReader) body(sb *hclsyntax.Body) *refwriter.Body {
+func (r *srcReader) body(sb *hclsyntax.Body, lo, hi int) *refwriter.Body {
 	type ent struct {
 		rng  hcl.Range
 		attr *hclsyntax.Attribute
@@ -113,8 +242,11 @@ func (r *srcReader) body(sb *hclsyntax.Body) *refwriter.Body {
 	sort.Slice(ents, func(i, j int) bool { return ents[i].rng.Start.Byte < ents[j].rng.Start.Byte })
 
 	out := &refwriter.Body{}
+	var sents []srcEnt
 	for _, e := range ents {
 		it := &refwriter.Item{}
+		se := srcEnt{item: it, start: e.rng.Start.Byte, end: e.rng.End.Byte}
+		se.startLn, se.endLn = r.line(se.start), r.line(se.end)
 		if e.attr != nil {
 			it.Name = e.attr.Name
 			xr := e.attr.Expr.Range()
@@ -124,13 +256,18 @@ func (r *srcReader) body(sb *hclsyntax.Body) *refwriter.Body {
 			it.Block = true
 			it.Type = e.blk.Type
 			it.Labels = append([]string(nil), e.blk.Labels...)
-			it.Body = r.body(e.blk.Body)
+			se.inStart, se.inEnd = e.blk.OpenBraceRange.End.Byte, e.blk.CloseBraceRange.Start.Byte
+			it.Body = r.body(e.blk.Body, se.inStart, se.inEnd)
 			it.Body.OneLine = e.blk.OpenBraceRange.Start.Line == e.blk.CloseBraceRange.Start.Line
 		}
 		lo, hi, terminated := r.extent(e.rng.Start.Byte, e.rng.End.Byte)
 		it.NoEOL = !terminated
 		it.Orig = stripSpaces(r.src[lo:hi])
 		out.Items = append(out.Items, it)
+		sents = append(sents, se)
+	}
+	if len(r.comments) > 0 {
+		r.attach(out, sents, lo, hi)
 	}
 	return out
 }
